@@ -51,7 +51,7 @@ class C17(Prop):
             'thorough x all compositions into <= 4 partitions incl. empty ones), mixed-magnitude floats sampled, size ratios '
             'straddling 10 for the mean-update branches, random merge trees incl. self-merge and empty partials, DataFrame '
             'cov/corr over random partitionings (one case in eight with a constant column of a non-dyadic value, where corr must be NaN '
-            'for every split). The model runs on the exact rational value of every input double; the '
+            'for every split; one in ten with partitions whose partial means agree exactly in one column only). The model runs on the exact rational value of every input double; the '
             'implementation\'s floats must lie within 1e-9 x magnitude of the two-pass value (= model value, exactly equal '
             'in Lean). Non-trivial = at least two values and two partitions/partials; distinct = distinct canonical case.')
     trusted = ('IEEE-754 rounding: theorems are exact-arithmetic; the 1e-9 claim for doubles is measured, not proved',
@@ -94,6 +94,9 @@ class C17(Prop):
                 i += n
             out.append({'op': 'cov', 'parts': parts})
             out.append({'op': 'cov', 'parts': [[[y, x] for x, y in p] for p in parts]})
+        # equal partial means in one column only (seeded change C17-m20: one guard for the corrections of both columns)
+        out.append({'op': 'cov', 'parts': [[[0.0, 0.0], [1.0, 1.0]], [[2.0, 0.0], [3.0, 1.0]]]})
+        out.append({'op': 'cov', 'parts': [[[0.0, 0.0], [2.0, 5.0]], [], [[1.0, 1.0], [1.0, 7.0]], [[2.0, 2.0], [0.0, 1.0]]]})
         return out
 
     def gen_num(self, rng, style):
@@ -131,6 +134,18 @@ class C17(Prop):
             c = rng.choice([0.1, 0.3, 0.7, 1.1, 2.7, -0.1, 1e-3, 1 / 3, 123.456, 0.5, 3.0])
             n = rng.choice([2, 3, 4, 5, 6, 8, 12])
             xs = [(c, self.gen_num(rng, style)) if rc < .36 else (self.gen_num(rng, style), c) for _ in range(n)]
+        elif rc < .52:
+            # every partition holds the same x values (in another order), so the partial means of ONE column are exactly equal
+            # while those of the other differ: the between-partition corrections of the two columns must not share a guard
+            base = [self.gen_num(rng, rng.choice(['int', 'unit'])) for _ in range(rng.choice([1, 2, 3]))]
+            parts = []
+            for _ in range(rng.choice([2, 3, 4])):
+                b = list(base)
+                rng.shuffle(b)
+                parts.append([[v, self.gen_num(rng, style)] if rc < .47 else [self.gen_num(rng, style), v] for v in b])
+                if rng.random() < .2:
+                    parts.append([])
+            return {'op': 'cov', 'parts': parts}
         else:
             xs = [(self.gen_num(rng, style), self.gen_num(rng, style)) for _ in range(n)]
         return {'op': 'cov', 'parts': [[list(p) for p in part] for part in random_layout(rng, xs, 4)]}
